@@ -16,7 +16,7 @@ ASSUMPTIONS = [
 ]
 BOUNDS = {
     "quick": "Bloom geometries 1, 2, 3, 6, 7, 8, 11, 13, 16 and 63 bits; counting Bloom 2 and 3 cells; rule matrix over 3 geometries x 3 strategies x foreign types",
-    "thorough": "adds 34-bit and 39-bit Bloom geometries, counting Bloom 6 cells",
+    "thorough": "adds 34-bit and 39-bit Bloom geometries, counting Bloom 6 cells (counters below 2^30 there; the full 32-bit range on 2 and 3 cells)",
     "outside": "larger geometries; mixing a counting with a plain Bloom filter (outside the claim)",
 }
 EXPECT_LABELS = {"quick": ["intersection-is-and", "intersection-reports-common-keys", "jaccard-is-ratio", "jaccard-symmetric", "jaccard-in-0-1",
@@ -64,8 +64,8 @@ def cbf(ctx, cfg):
     b = CountingBloomFilter(cfg["est"], cfg["fpr"], hash_function=FIXED)
     m, k = a.number_bits, a.number_hashes
     for j in range(m):
-        a._bloom[j] = ctx.int(f"a{j}", 0, 2 ** 32 - 1)       # every value a cell can hold (sums reach and pass 2^32)
-        b._bloom[j] = ctx.int(f"b{j}", 0, 2 ** 32 - 1)
+        a._bloom[j] = ctx.int(f"a{j}", 0, cfg.get("cmax", 2 ** 32 - 1))       # every value a cell can hold (sums reach and pass 2^32)
+        b._bloom[j] = ctx.int(f"b{j}", 0, cfg.get("cmax", 2 ** 32 - 1))
     pa, pb = env.cells(a._bloom), env.cells(b._bloom)
     stub_estimate(ctx)
     r = a.intersection(b)
@@ -165,7 +165,9 @@ def jobs(tier):
         js.append({"h": "c13.bloom", "cfg": {"est": est, "fpr": fpr}, "opts": {"cost": est}})
     # every cell forks three ways in intersection() and again in jaccard_index(): 3 cells = 289 paths, 6 cells > 12 000
     for est, fpr in [(1, .5), (1, .3)] + ([(2, .3)] if tier == "thorough" else []):
-        js.append({"h": "c13.cbf", "cfg": {"est": est, "fpr": fpr}, "opts": {"cost": est * 1000, "max_seconds": 3000}})
+        # 6 cells with the full counter range fork four ways per cell (> 98 000 paths, does not finish in 50 min): counters < 2^30 there
+        cfg = {"est": est, "fpr": fpr} if est == 1 else {"est": est, "fpr": fpr, "cmax": 2 ** 30}
+        js.append({"h": "c13.cbf", "cfg": cfg, "opts": {"cost": est * 1000, "max_seconds": 3000}})
     # 'no operation ever modifies an operand other than the receiver of join': the argument of join, also after a later change of the receiver
     for w, d in [(1, 1), (2, 2), (3, 2)]:
         js.append({"h": "c12.cms_join_raw", "cfg": {"w": w, "d": d}, "opts": {"cost": w * d * 10}})
